@@ -91,7 +91,9 @@ def _decorator_kind(fn: ast.FunctionDef) -> str:
 
 
 class Repo:
-    def __init__(self, root: str, package: str = "canopen"):
+    def __init__(self, root: str, package: str = "canopen", overlay: Optional[Dict[str, str]] = None):
+        """overlay: {relative path: source text} replaces files on disk (used by the self-test's variants)."""
+        overlay = overlay or {}
         self.root = os.path.abspath(root)
         self.package = package
         self.modules: Dict[str, Mod] = {}
@@ -106,8 +108,11 @@ class Repo:
                     continue
                 path = os.path.join(dirpath, fn)
                 rel = os.path.relpath(path, self.root)
-                with open(path, encoding="utf-8") as fh:
-                    src = fh.read()
+                if rel in overlay:
+                    src = overlay[rel]
+                else:
+                    with open(path, encoding="utf-8") as fh:
+                        src = fh.read()
                 try:
                     tree = ast.parse(src, filename=rel)
                 except SyntaxError as e:
